@@ -185,7 +185,7 @@ func runEngine(l *Loaded, rc RunConfig) []*Harness {
 			}
 			fn := l.pkgOf(short).Func(n)
 			e.harnesses = append(e.harnesses, &Harness{Name: short + "." + n, Fn: fn, Stats: &HarnessStats{Name: short + "." + n,
-				Asserts: map[string]int{}, AssertsSym: map[string]int{}, ViolCount: map[string]int{}, Funcs: map[string]bool{}, Covers: map[string]int{}}})
+				Asserts: map[string]int{}, AssertsSym: map[string]int{}, ViolCount: map[string]int{}, Funcs: map[string]bool{}, Covers: map[string]int{}, Notes: map[string]bool{}}})
 		}
 	}
 	sort.Slice(e.harnesses, func(i, j int) bool { return e.harnesses[i].Name < e.harnesses[j].Name })
